@@ -381,6 +381,31 @@ def classify_illegal(op, before, bbs_before):
         if not us or not vs:
             return None
         return conn_bad(us, vs)
+    if k == "add_blackbox":
+        _, tname, inst, conns = op
+        ins, outs = BBTYPES[tname]
+        if inst in bbs_before:
+            return "duplicate instance name"
+        for p, net in (conns or {}).items():
+            if p not in ins and p not in outs:
+                return "connection to an undefined pin"
+            if net not in nodes and not (isinstance(net, str) and net.startswith(inst + ".")):
+                return f"connection to missing node {net}"
+        return None
+    if k == "add_subcircuit" and op[1] != "self":
+        _, cname, inst, conns, strip = op
+        ch = CHILDREN[cname]
+        io = [n for n, v in ch["nodes"].items() if v[0] == "input" or v[2]]
+        for p, net in (conns or {}).items():
+            if p not in io:
+                return "connection key is not child io"
+            if net not in nodes and not (isinstance(net, str) and net.startswith(inst + "_")):
+                return f"connection to missing node {net}"
+        return None
+    if k == "fill_blackbox":
+        if op[1] not in bbs_before:
+            return "no such instance"
+        return None
     return None
 
 
@@ -485,6 +510,7 @@ def run(case, ctx):
                             dict(sig, rule="I9", why=why))
         if exc is None and classify_illegal(op, before, bbs_before):
             why = classify_illegal(op, before, bbs_before)
+            ctx.probe("illegal_call_accepted:" + op[0])
             ctx.violate("C07.I9", f"step {step} {op}: illegal ({why}) but the call was accepted",
                         dict(sig, rule="I9accept", why=why))
         if op[0] == "fill_blackbox" and op[1] in exempt:
